@@ -217,7 +217,27 @@ class Spec(object):
 
     def cases(self):
         """finite case split over concrete parameters: list of dicts merged into inputs."""
+        if getattr(self, "_cases", None) is not None:
+            return self._cases
+        return self.all_cases()
+
+    def all_cases(self):
         return [{}]
+
+    def shards(self, n):
+        import copy
+        cs = self.cases()
+        if len(cs) < 2 * n:
+            return [self]
+        out = []
+        for i in range(n):
+            sub = cs[i::n]
+            if sub:
+                c = copy.copy(self)
+                c._cases = sub
+                c._shard = i
+                out.append(c)
+        return out
 
     def requires(self, I, a):
         return True
